@@ -431,3 +431,5 @@ func joinLines(ss []string, max int) string {
 	}
 	return strings.Join(ss, "\n")
 }
+
+func stackOf() []byte { return debug.Stack() }
